@@ -516,7 +516,31 @@ class Discharger:
                         tys = [fl["ty"] for fl in a_["variants"][0]["fields"] if fl["name"] in names]
                         return bool(tys) and all(re.search(r"&('\w+ )?str\b", t_) for t_ in tys)
                     return False
-                api = f.rec.get("vis_pub") or f.id in shared.printers(self.facts)
+                def from_api(h, l, depth=0):
+                    """parameter l of h is an application-supplied &str: h is API (or a printer), or a private helper every caller of which
+                    hands it such a parameter of its own"""
+                    if h.rec.get("vis_pub") or h.id in shared.printers(self.facts):
+                        return True
+                    if depth > 3:
+                        return False
+                    cs = list(self.facts.callers_of(h.id))
+                    if not cs:
+                        return False
+                    for hc, b2, t2 in cs:
+                        if l - 1 >= len(t2["args"]):
+                            return False
+                        y = hc.origin(t2["args"][l - 1])
+                        for _ in range(8):
+                            if y[0] in ("ref", "deref"):
+                                y = y[1]
+                            elif y[0] == "call" and re.search(r"(::as_ref|::as_deref|::as_str|::deref|::borrow)$", y[1]) and y[2]:
+                                y = y[2][0]
+                            else:
+                                break
+                        if y[0] != "arg" or not re.search(r"&('\w+ )?str\b", hc.local_ty(y[1])) or not from_api(hc, y[1], depth + 1):
+                            return False
+                    return True
+                api = all(from_api(f, y[1]) for y in root) if root else False
                 if root and api and all(str_param(y) for y in root):
                     descs.append("application-supplied &str (not client input)")
                     self.ctx.assume("the application passes an ASCII protocol name to Request::upgrade")
@@ -593,6 +617,11 @@ class Discharger:
                     if (a[0] == "call" and re.search(r"::len$", a[1]) and a[2] and (taint.origin_eq(a[2][0], base) or origin_str(a[2][0]).lstrip("&*") == origin_str(base).lstrip("&*"))) or \
                             (a[0] == "unop" and a[1] == "PtrMetadata" and origin_str(a[2]).lstrip("&*") == origin_str(base).lstrip("&*")):
                         return ("D-GUARDED-INDEX", "`..min(len, _)` never exceeds the slice's length")
+            # `buf[..min(x, K)]` where buf was created once as `vec![_; min(x, K)]` from the same variable x, which has only been decreased
+            # since (and the vector is only ever sliced): the end never exceeds the length the vector was given
+            r_ = self.sized_once(f, bb, base, end)
+            if r_:
+                return r_
             # dominated by the false edge of `len(buf) < end`
             for b in sorted(dom[bb]):
                 bs = bool_switch(f, b)
@@ -616,6 +645,15 @@ class Discharger:
                     if call_matches(t2, r"<impl str>::starts_with") and t2.get("target") is not None:
                         lits = [c for c in arg_consts(f, t2) if isinstance(c, str)]
                         bs = bool_switch(f, t2["target"])
+                        if not bs:
+                            # the test's answer handed through a helper or closure that returns it (`.filter(|p| p.starts_with(..))`)
+                            for d_ in range(f.n):
+                                bs_ = bool_switch(f, d_)
+                                if bs_:
+                                    c_ = f.origin(bs_[0])
+                                    if c_[0] == "call" and len(c_) > 3 and c_[3] == b2:
+                                        bs = bs_
+                                        break
                         if lits and bs and len(lits[0].encode()) >= k and all(ord(ch) < 0x80 for ch in lits[0]) \
                                 and f.dominates(bs[1], bb, unwind=False) and bs[1] != bs[2]:
                             recv = f.origin(t2["args"][0])
@@ -663,6 +701,58 @@ class Discharger:
                 self.ctx.assume("inner readers obey the io::Read contract (returned count <= buffer length)")
                 return ("D-READ-CONTRACT", r)
         return None
+
+    def sized_once(self, f, bb, base, end):
+        fe = [z for z in origin_walk(base) if z[0] == "call" and re.search(r"from_elem$", z[1]) and len(z[2]) > 1 and len(z) > 3]
+        if len(fe) != 1:
+            return None
+        n0, fb = fe[0][2][1], fe[0][3]
+        def split(e):
+            if e[0] == "call" and re.search(r"::min$", e[1]) and len(e[2]) == 2:
+                ks = [a for a in e[2] if a[0] == "const" and isinstance(a[1], int) and not isinstance(a[1], bool)]
+                xs = [a for a in e[2] if not (a[0] == "const")]
+                if len(ks) == 1 and len(xs) == 1:
+                    return xs[0], ks[0][1]
+            return e, None
+        xe, ke = split(end)
+        x0, k0 = split(n0)
+        if xe[0] != "local" or x0 != xe or not (k0 is None or (ke is not None and ke <= k0)):
+            return None
+        l = xe[1]
+        dec_blocks, other_blocks = [], []
+        for d in f.defs().get(l, []):
+            if d[0] == "arg":
+                continue
+            if d[0] != "assign":
+                return None
+            rv = d[3]
+            o = f.origin(rv["op"]) if rv["rv"] == "use" else (("binop", rv["op"], f.origin(rv["a"]), f.origin(rv["b"])) if rv["rv"] == "binop" else ("unknown",))
+            # x = x - _  (checked or not: an overflowing subtraction is a panic site of its own) / x = min(x, _) / x = x.saturating_sub(_)
+            while o[0] == "field" and o[1][0] == "binop":
+                o = o[1]
+            dec = (o[0] == "binop" and o[1] in ("Sub", "SubWithOverflow", "SubUnchecked") and o[2] == ("local", l)) or \
+                  (o[0] == "call" and re.search(r"::(saturating_sub|min)$", o[1]) and o[2] and o[2][0] == ("local", l))
+            (dec_blocks if dec else other_blocks).append(d[1])
+        if not other_blocks or not all(f.dominates(b, fb, unwind=False) for b in other_blocks):
+            return None
+        if set(other_blocks) & (f.reach([fb], unwind=False) - {fb}):
+            return None                       # the variable may be given a new (larger) value after the vector was made
+        # the vector itself: only sliced / dereferenced
+        vl = None
+        for b2, t2 in f.calls():
+            if b2 == fb and not t2["dest"]["p"]:
+                vl = t2["dest"]["l"]
+        if vl is None:
+            return None
+        for b2, i2, st2 in f.assigns():
+            rv = st2["rhs"]
+            if rv["rv"] == "ref" and rv["pl"]["l"] == vl and rv.get("mut"):
+                us = f.uses().get(st2["lhs"]["l"], []) if not st2["lhs"]["p"] else None
+                if not us or not all(u[0] == "term" and u[2]["t"] == "call" and call_matches(u[2], r"(::index_mut|::deref_mut|::as_mut_slice|::as_mut|::index|::deref|::len)$") for u in us):
+                    return None
+            if rv["rv"] == "use" and op_place(rv["op"]) and op_place(rv["op"])["l"] == vl:
+                return None
+        return ("D-GUARDED-INDEX", "`v[..min(x, K)]` where v was created as `vec![_; min(x, K)]` from the same variable, which is only ever decreased afterwards")
 
     def accumulator(self, f, o):
         """origin `o` is a local initialised with 0 and only ever increased by Read::read counts,
@@ -1055,8 +1145,12 @@ def panic_census(ctx, RULE, reg=None, fns=None):
             # a site inside a private helper is judged inside the function the helper serves (its guards may live there)
             # (in every one of them, when it serves several)
             cx = shared.lift_sites(facts, g, bb)
+            if "{closure" in g.id and all(R is g for R, b in cx):
+                # (a closure handed to an Option / Result combinator is found in its parent once the combinator's body is spliced in)
+                cx = shared.lift_sites(facts, g, bb, std=True)
             if cx and all(R is not g for R, b in cx):
-                rs_ = [D.discharge(R, b, kind, R.term(b)) for R, b in cx]
+                # (where the call at the site was itself spliced in, the call it was)
+                rs_ = [D.discharge(R, b, kind, R.blocks[b].get("inl_call") or R.term(b)) for R, b in cx]
                 if all(x is not None and x[0] != "DEFER-POISON" for x in rs_):
                     r = rs_[0]
         if r is None:
